@@ -92,8 +92,8 @@ OpWF(o) == \/ o.op \in {"Set", "Add"} /\ o.n \in Names /\ o.v \in ValuesOf(o.n) 
 
 OpsSmall == {HSet(XA, "1"), HAdd(XA, "2"), HDel(XA), HAdd(SC, C1), HAdd(SC, C3), HSet(CT, "text/html"),
              WH(201), WH(500), W("a"), W("bc")}
-OpsFull == OpsSmall \cup {HSet(XA, "2"), HAdd(XA, "1"), HAdd(XA, ""), HSet(CT, "application/json"), HDel(CT), HAdd(SC, C2),
-                          HSet(SC, C2), HDel(SC), WH(404), WH(200), W("")}
+OpsMid == OpsSmall \cup {HAdd(XA, ""), HSet(CT, "application/json"), HDel(CT), HAdd(SC, C2), HDel(SC), WH(200), W("")}
+OpsFull == OpsMid \cup {HSet(XA, "2"), HAdd(XA, "1"), HSet(SC, C2), WH(404)}
 
 \* what the hertz Response holds before the writer is made: headers (in the order they were added) and a body
 H(n, v) == [n |-> n, v |-> v]
